@@ -636,3 +636,113 @@ reg(dict(
     assumptions=[
         "generator = enumeration spec PktSeq.tla; byte accounting in the monitor uses payload sizes (lower bound of packet sizes) with 16 bytes of header slack",
     ]), ["C12"])
+
+
+# =============================================================================================
+# group "teardown": C07  (Faults.tla generator + ProtoMon.tla teardown rules)
+
+FAULT_CFG = """SPECIFICATION ExportSpec
+CONSTANTS
+  NS = {ns}
+  NC = {nc}
+  MaxCut = {maxcut}
+CHECK_DEADLOCK FALSE
+"""
+
+
+def c07_scenarios(role, ver):
+    pub = lambda **kw: {"c": "in", "p": dict({"t": "publish", "topic": "t", "plen": 1}, **kw)}
+    s = []
+    # S1 publishes in flight with gated handlers
+    s.append(({}, [pub(q=1, id=1), pub(q=2 if role == "server" else 1, id=2), pub(q=0)]))
+    # S2 streamed payload half received, reader waiting
+    s.append(({}, [pub(q=1, id=3, plen=12, send=4), {"c": "complete", "j": 0, "o": "ok", "read": "all"}]))
+    # S3 outbound sends awaiting acknowledgements
+    s.append(({}, [{"c": "send", "s": 1, "k": "q1", "id": 0}, {"c": "poll", "s": 1},
+                   {"c": "send", "s": 2, "k": "q2", "id": 0}, {"c": "poll", "s": 2}]))
+    # S4 senders parked on the window
+    s.append(({"max_send": 1, "_rm": 1}, [{"c": "send", "s": 1, "k": "q1", "id": 0}, {"c": "poll", "s": 1},
+                                           {"c": "send", "s": 2, "k": "q1", "id": 0}, {"c": "poll", "s": 2},
+                                           {"c": "send", "s": 3, "k": "ready", "id": 0}, {"c": "poll", "s": 3}]))
+    # S5 write back-pressure active (transport stalled, write buffer above the high watermark)
+    s.append(({"wr_high": 32, "wr_low": 8}, [{"c": "cap", "n": 0},
+                                              {"c": "send", "s": 1, "k": "q1", "id": 0, "plen": 64}, {"c": "poll", "s": 1},
+                                              {"c": "send", "s": 2, "k": "q1", "id": 0, "plen": 64}, {"c": "poll", "s": 2},
+                                              pub(q=1, id=5)]))
+    # S6 idle
+    s.append(({}, []))
+    return s
+
+
+def c07_causes(role, ver):
+    mark = lambda k: {"c": "mark", "e": "cause", "k": k}
+    c = [
+        [mark("stop_peer"), {"c": "peer_close"}],
+        [mark("stop_peer"), {"c": "io_err", "dir": "read"}],
+        [mark("stop_peer"), {"c": "io_err", "dir": "write"}, {"c": "send", "s": 30, "k": "q0", "id": 0}],
+        [mark("stop_proto"), {"c": "in", "p": {"t": "raw", "hex": "00 00"}}],                       # undecodable
+        [mark("stop_proto"), {"c": "in", "p": {"t": "publish", "q": 1, "id": 9, "topic": "a/#", "plen": 1}}
+         if role == "server" else {"c": "in", "p": {"t": "pingreq"}}],                              # violation
+        [mark("stop_error"), {"c": "arm", "o": "err"}, {"c": "in", "p": {"t": "publish", "q": 1, "id": 11, "topic": "t", "plen": 1}}],
+        [mark("stop_peer"), {"c": "close", "k": "close"}],
+        [mark("stop_peer"), {"c": "close", "k": "force"}],
+        [mark("stop_peer"), {"c": "arm", "ctl": 1, "o": "err"}, {"c": "peer_close"}],               # failing Stop handler
+        [mark("stop_peer"), {"c": "gate", "what": "stop", "on": 1}, {"c": "peer_close"},
+         {"c": "complete", "j": 9, "o": "ok"}],                                                       # slow Stop handler
+        [mark("stop_peer"), {"c": "in", "p": {"t": "publish", "q": 1, "id": 12, "topic": "t", "plen": 40}, "upto": 7},
+         {"c": "peer_close"}],                                                                        # peer gone inside a frame
+    ]
+    if role == "server":
+        c.append([mark("stop_error"), {"c": "arm", "o": "err"}, {"c": "in", "p": {"t": "pingreq"}}])  # protocol handler error
+    return c
+
+
+def c07_decode_for(role, ver):
+    scen = c07_scenarios(role, ver)
+    causes = c07_causes(role, ver)
+
+    def dec(tokens, variant):
+        s, i, c = tokens
+        extra, base = scen[s - 1]
+        if i > len(base) or c > len(causes):
+            return None, None
+        if s == 2 and i >= 1 and c in (4, 5, 6, 11, 12):
+            return None, None      # a packet written inside a half-received payload is payload
+        cfg = dict(role=role, ver=ver, gate_pub=1, gate_proto=0, max_qos=2, max_receive=16)
+        cfg.update({k: v for k, v in extra.items() if not k.startswith("_")})
+        ck = {"rm": extra["_rm"]} if "_rm" in extra and ver == 5 else None
+        cmds = [handshake(role, ver, connack=ck, connect=ck)]
+        cmds += base[:i]
+        cause = causes[c - 1]
+        # the slow-Stop cause completes "the newest gate": resolved by rank at run time
+        cmds += [dict(x, j=99) if x.get("c") == "complete" and x.get("j") == 9 else x for x in cause]
+        cmds += [{"c": "cap"}, {"c": "pollall"}, {"c": "drain", "read": "all"}, {"c": "pollall"}]
+        return cfg, cmds
+    return dec
+
+
+def c07_configs(tier):
+    cs = []
+    for ver in (3, 5):
+        for role in ("server", "client"):
+            ns = len(c07_scenarios(role, ver))
+            nc = len(c07_causes(role, ver))
+            cs.append((f"v{ver}{role[0]}", FAULT_CFG.format(ns=ns, nc=nc, maxcut=6), "Faults",
+                       c07_decode_for(role, ver), [None]))
+    return cs
+
+
+reg(dict(
+    name="teardown", judge="ProtoJudge", configs=c07_configs, signature=inb_signature,
+    level={"C07": "fault_enumeration"}, quota=400, quota_thorough=100000,
+    rule="TLC enumerates every triple <scenario, step index, cause>: 6 base scenarios (gated publishes in flight, streamed "
+         "payload half received with a waiting reader, sends awaiting acks, senders parked on the window, write "
+         "back-pressure active, idle) x every prefix x 11-12 causes (peer close, read error, write error, undecodable "
+         "bytes, protocol violation, publish / protocol handler error, close, force_close, failing and slow Stop "
+         "handler, peer gone inside a frame) x v3/v5 x server/client; the epilogue releases the transport, polls every "
+         "send future and opens every gate; ProtoMon judges: exactly one Stop of the cause's class, no handler cancelled "
+         "before it was handled, no truncated payload read as complete, no send future left pending, connection task completed",
+    assumptions=[
+        "keep-alive expiry as a cause is covered by C20 (real time)",
+        "generator = enumeration spec Faults.tla; base scenarios and causes are tables in bin/groups.py",
+    ]), ["C07"])
